@@ -387,39 +387,40 @@ func c07Schema(r *core.Run) {
 			}, false)
 			ok1, n1, p1 := core.MustPass(fn, in.Block(), ro)
 			r.Check(ok1 && n1 > 0, "C07.SCHEMA", fnm+"#schema-write-not-readonly", in.Pos(), "schema version is written only when the database is not read-only", "schema version can be written in read-only mode ("+core.FmtPath(p1)+")")
-			// only when absent: unreachable from the edge where the stored version is non-empty
-			absent := false
-			for _, b := range fn.Blocks {
-				if len(b.Instrs) == 0 {
-					continue
-				}
-				ifi, ok := b.Instrs[len(b.Instrs)-1].(*ssa.If)
-				if !ok {
-					continue
-				}
-				op, x, y, neg, ok := core.Compare(ifi.Cond)
-				if !ok || (op != token.NEQ && op != token.EQL) {
-					continue
-				}
-				if s, isC := core.ConstString(y); !isC || s != "" {
-					continue
-				}
-				ex, isEx := x.(*ssa.Extract)
+			// only when absent: every path to the write took the edge "no version string stored" (the lookup failed
+			// or returned the empty string), however the two tests are combined
+			isLookup := func(v ssa.Value) (*ssa.Extract, bool) {
+				ex, isEx := core.Unwrap(v).(*ssa.Extract)
 				if !isEx {
-					continue
+					return nil, false
 				}
-				// the edge taken when a version string is stored (non-empty), whichever way the test is written
-				nonEmpty := 0
-				if (op == token.EQL) != neg {
-					nonEmpty = 1
+				call, isCall := ex.Tuple.(*ssa.Call)
+				if !isCall || len(call.Call.Args) == 0 {
+					return nil, false
 				}
-				if call, isCall := ex.Tuple.(*ssa.Call); isCall {
-					if k, isK := core.ConstString(call.Call.Args[len(call.Call.Args)-1]); isK && k == key {
-						reach := core.ReachAvoiding(b.Succs[nonEmpty], nil)
-						absent = !reach[in.Block()]
-					}
-				}
+				k, isK := core.ConstString(call.Call.Args[len(call.Call.Args)-1])
+				return ex, isK && k == key
 			}
+			okAbs, nAbs, _ := core.MustPass(fn, in.Block(), func(cond ssa.Value) (bool, bool) {
+				if x, nonNilOnTrue, okN := core.NilCompare(cond); okN {
+					if ex, isL := isLookup(x); isL && ex.Type().String() == "error" {
+						return true, nonNilOnTrue
+					}
+					return false, false
+				}
+				op, x, y, neg, ok := core.Compare(cond)
+				if !ok || neg || (op != token.NEQ && op != token.EQL) {
+					return false, false
+				}
+				if sv, isC := core.ConstString(y); !isC || sv != "" {
+					return false, false
+				}
+				if _, isL := isLookup(x); !isL {
+					return false, false
+				}
+				return true, op == token.EQL
+			})
+			absent := okAbs && nAbs > 0
 			r.Check(absent, "C07.SCHEMA", fnm+"#schema-write-only-when-absent", in.Pos(), "schema version is written only when no version is stored", "schema version can be overwritten although one is stored")
 		})
 	}
